@@ -378,6 +378,50 @@ def role_hook_raises_on_step_down(**kw):
     return sc.rec
 
 
+def lost_rejection_is_repeated(**kw):
+    """entries on their way to a follower are lost with a flapping connection (the leader's next index for it stays
+    ahead), the append_entries that follows is rejected - and that one rejection is lost as well.  Leader and term stay
+    the same.  Every further append_entries draws the rejection again, the leader steps back and the follower catches
+    up; after a quiet period the replicas are equal (seed C05-r7: a follower that does not repeat a rejection it has
+    already sent to this leader in this term stays behind for ever)."""
+    sc = Script(base_cfg([1, 2, 3], fallback=100000), **kw)
+    s = sc.s
+    s.boot()
+    sc.elect(1)
+    sc.settle([1, 2, 3], 2)
+    for rnd in range(2):
+        for _ in range(3):
+            s.submit(1, size=5)
+        s.tick(1, 11)                 # appended
+        s.tick(1, 11)                 # queued for 2 and 3, the next index of both moves on
+        sc.flush(1, 2)
+        sc.flush(2, 1)
+        s.drop(1, 3)
+        s.drop(3, 1)                  # ... those for 3 are lost with the connection
+        s.connect(1, 3)
+        s.connect(3, 1)
+        s.submit(1, size=5)
+        s.tick(1, 11)
+        s.tick(1, 11)                 # the next append_entries starts behind what 3 holds
+        sc.flush(1, 2)
+        sc.flush(2, 1)
+        sc.flush(1, 3)                # 3 rejects it
+        s.drop(3, 1)
+        s.drop(1, 3)                  # the rejection is lost too
+        s.connect(1, 3)
+        s.connect(3, 1)
+        for _ in range(3):
+            s.tick(1, 11)
+            sc.flush(1, 2)
+            sc.flush(2, 1)
+            sc.flush(1, 3)
+            sc.flush(3, 1)
+    RC.quiet_period(s, timeouts=3, submit_on=3)
+    sc.rec.convergence = RC.convergence_problems(sc.rec, s, None, {})
+    sc.rec.convergence_props = ('C05',)
+    return sc.rec
+
+
 def forwarded(**kw):
     """commands submitted on a follower while the leader changes"""
     sc = Script(base_cfg([1, 2, 3]), **kw)
@@ -1923,7 +1967,7 @@ def big_entry_index_reused(**kw):
 
 
 SCENARIOS = {'d7': d7, 'd8': d8, 'd17': d17, 'd16': d16, 'd1': d1, 'd20': d20,
-             'snapshot_catchup': snapshot_catchup, 'role_hook_raises_on_step_down': role_hook_raises_on_step_down, 'deposed_leader_waiters_share_positions': deposed_leader_waiters_share_positions, 'snapshot_installed_follower_leads': snapshot_installed_follower_leads, 'snapshot_sent_long_after_it_was_taken': snapshot_sent_long_after_it_was_taken, 'forwarded': forwarded,
+             'snapshot_catchup': snapshot_catchup, 'lost_rejection_is_repeated': lost_rejection_is_repeated, 'role_hook_raises_on_step_down': role_hook_raises_on_step_down, 'deposed_leader_waiters_share_positions': deposed_leader_waiters_share_positions, 'snapshot_installed_follower_leads': snapshot_installed_follower_leads, 'snapshot_sent_long_after_it_was_taken': snapshot_sent_long_after_it_was_taken, 'forwarded': forwarded,
              'restart_double_vote': restart_double_vote, 'd18': d18, 'd10': d10, 'd19': d19, 'd6': d6,
              'ser_fork': ser_fork, 'ser_custom': ser_custom, 'fig8': fig8, 'stale_match_reelected': stale_match_reelected,
              'stale_cursor': stale_cursor, 'compact_during_install': compact_during_install,
